@@ -46,9 +46,9 @@ Definition no_lost_wakeup_at (cap : N) (s : st) : bool :=
 
 (* a pending wake-up is delivered by the waking thread's own next (at most four) steps *)
 Definition delivered_r (cap : N) (s : st) : bool :=
-  implb (wake_pending_r s) (rnotif (pstep cap (pstep cap (pstep cap (pstep false cap s))))).
+  implb (wake_pending_r s) (rnotif (pstep false cap (pstep false cap (pstep false cap (pstep false cap s))))).
 Definition delivered_s (cap : N) (s : st) : bool :=
-  implb (wake_pending_s s) (snotif (cstep cap (cstep cap (cstep cap (cstep false cap s))))).
+  implb (wake_pending_s s) (snotif (cstep false cap (cstep false cap (cstep false cap (cstep false cap s))))).
 
 Definition p_enabled (y : sys) : bool :=
   match ppc (y_st y) with Idle => match y_pp y with [] => false | _ => true end | Done => false | _ => true end.
